@@ -1460,12 +1460,21 @@ class IRGenerator:
                             *loc)
                     if isinstance(env[type_name], Environment):
                         # Handle reference to field in imported namespace.
-                        namespace_name, type_name, field_name = val.split('.', 2)
+                        parts = val.split('.', 2)
+                        if len(parts) != 3 or parts[1] not in env[parts[0]]:
+                            raise InvalidSpec(
+                                'Bad doc reference to field of unknown type %s.' % quote(val),
+                                *loc)
+                        namespace_name, type_name, field_name = parts
                         data_type_to_check = env[namespace_name][type_name]
-                    elif isinstance(env[type_name], Alias):
-                        data_type_to_check = env[type_name].data_type
                     else:
                         data_type_to_check = env[type_name]
+                    while isinstance(data_type_to_check, Alias):
+                        data_type_to_check = data_type_to_check.data_type
+                    if not isinstance(data_type_to_check, (Struct, Union)):
+                        raise InvalidSpec(
+                            'Bad doc reference to field of %s, which is not a struct or union.' %
+                            quote(type_name), *loc)
                     if not any(field.name == field_name
                                for field in data_type_to_check.all_fields):
                         raise InvalidSpec(
@@ -1500,7 +1509,16 @@ class IRGenerator:
                 else:
                     env_to_check = env
 
-                route_name, version = parse_route_name_and_version(val)
+                try:
+                    route_name, version = parse_route_name_and_version(val)
+                except ValueError:
+                    raise InvalidSpec(
+                        'Bad doc reference to route %s (version must be a number).' % quote(val),
+                        *loc)
+                if not isinstance(env_to_check, Environment):
+                    raise InvalidSpec(
+                        '%s in doc reference to route is not a namespace.' % quote(namespace_name),
+                        *loc)
                 if route_name not in env_to_check:
                     raise InvalidSpec(
                         'Unknown doc reference to route {}.'.format(quote(route_name)), *loc)
@@ -1521,6 +1539,10 @@ class IRGenerator:
                             "Unknown doc reference to namespace '%s'." %
                             namespace_name, *loc)
                     env_to_check = env[namespace_name]
+                    if not isinstance(env_to_check, Environment):
+                        raise InvalidSpec(
+                            '%s in doc reference to type is not a namespace.' %
+                            quote(namespace_name), *loc)
                 else:
                     env_to_check = env
                 if val not in env_to_check:
